@@ -920,6 +920,38 @@ func (ev *evalCtx) call(x *ast.CallExpr, want types.Type) (string, types.Type, e
 		if id, ok := sel.X.(*ast.Ident); ok && id.Name == "ghost" {
 			return ev.ghostCall(sel.Sel.Name, x.Args)
 		}
+		// pkg.pred(args): a pred defined in the contract files of another package; its body
+		// is evaluated in that package's scope (nested preds, unexported fields)
+		if id, ok := sel.X.(*ast.Ident); ok {
+			if _, isVar := ev.env[id.Name]; !isVar {
+				for _, p := range ev.importsNamed(id.Name) {
+					pc := ev.c.P.contracts[p.Path()+"::pred "+sel.Sel.Name]
+					if pc == nil || !pc.IsPred || pc.PredBody == nil {
+						continue
+					}
+					if len(x.Args) != len(pc.PredParams) {
+						return "", nil, fmt.Errorf("pred %s.%s expects %d arguments", id.Name, sel.Sel.Name, len(pc.PredParams))
+					}
+					n := *ev
+					n.pkg = p
+					n.env = map[string]envVal{}
+					for i, a := range x.Args {
+						t, ty, err := ev.expr(a, nil)
+						if err != nil {
+							return "", nil, err
+						}
+						n.env[pc.PredParams[i]] = envVal{t, ty}
+					}
+					if ev.old != nil {
+						o := *ev.old
+						o.env = n.env
+						o.pkg = p
+						n.old = &o
+					}
+					return n.expr(pc.PredBody.Expr, want)
+				}
+			}
+		}
 	}
 	// conversion
 	if t := ev.lookupType(x.Fun); t != nil && len(x.Args) == 1 {
